@@ -173,6 +173,9 @@ func runGenerated(seed int64, n, blocks int, opsPath, obsPath, statsPath string)
 }
 
 // replay an ops file (one or more histories) on the implementation
+var replayApp = false
+var replayMax = 0
+
 func runReplay(opsIn, opsOut, obsPath string) {
 	in, err := os.Open(opsIn)
 	must(err)
@@ -195,6 +198,14 @@ func runReplay(opsIn, opsOut, obsPath string) {
 		switch toks[0] {
 		case "H":
 			fmt.Sscan(toks[1], &r.hist)
+			if replayMax > 0 && r.hist >= replayMax {
+				if r.e != nil {
+					r.e.appClose()
+				}
+				r.ops.Flush()
+				r.obs.Flush()
+				return
+			}
 			r.idx = 0
 			gs = &Genesis{}
 			halted = false
@@ -223,7 +234,14 @@ func runReplay(opsIn, opsOut, obsPath string) {
 			case "time":
 				gs.Time = bi(toks[2])
 			case "go":
-				r.e = NewEnv()
+				if replayApp {
+					if r.e != nil {
+						r.e.appClose()
+					}
+					r.e = NewAppEnv()
+				} else {
+					r.e = NewEnv()
+				}
 				r.e.InitGenesis(gs)
 				r.emitObs("G", ResOK, r.e.Observe(), sdk.Events{}, nil, "")
 			}
@@ -259,7 +277,10 @@ func main() {
 		in := fs.String("in", "", "")
 		ops := fs.String("ops", "ops.txt", "")
 		obs := fs.String("obs", "obs.jsonl", "")
+		appMode := fs.Bool("app", false, "run on the real application (app.NewApp) instead of hand-assembled keepers")
+		maxh := fs.Int("max", 0, "with -app: replay only the first N histories (0 = all)")
 		fs.Parse(os.Args[2:])
+		replayApp, replayMax = *appMode, *maxh
 		runReplay(*in, *ops, *obs)
 	case "pure":
 		runPure(os.Args[2:])
